@@ -218,6 +218,17 @@ impl<'a> G<'a> {
                 self.expr(VT::I32, depth + 1, out);
                 out.push(TNode::Op(TOp::I64Load { align_log2: self.rng.below(4) as u8, offset: 0x1_0000 }));
             }
+            11 if self.multivalue => {
+                // multi-value block without parameters: (result t i32), the second result dropped afterwards
+                let id = self.new_id();
+                self.labels.push(Lab { id, tys: vec![t, VT::I32] });
+                let mut body = Vec::new();
+                self.expr(t, depth + 1, &mut body);
+                self.expr(VT::I32, depth + 1, &mut body);
+                self.labels.pop();
+                out.push(TNode::Block { id, params: vec![], results: vec![t, VT::I32], body });
+                out.push(TNode::Op(TOp::Drop));
+            }
             10 if self.multivalue => {
                 // multi-value block: (param i32) (result t)
                 let id = self.new_id();
